@@ -12,9 +12,10 @@ EXTENDS SLGGround, Json, IOUtils, TLCExt
 CONSTANTS MaxOps,      \* length of the history of public calls
           Kinds,       \* subset of {"solve", "limited", "panic"}
           MaxStop,     \* limited: callback returns false at consultation k \in 1..MaxStop
-          MaxPanic,    \* panic: the k-th table construction of the call panics, k \in 1..MaxPanic
+          MaxPanic,    \* panic: a callback panics instead of the call's k-th engine event, k \in 1..MaxPanic
           MaxEvents,   \* bound on the number of engine events of one public call (C09)
-          NegGoals     \* TRUE: also pose `not { atom }` root goals
+          NegGoals,    \* TRUE: also pose `not { atom }` root goals
+          PanicPlans   \* TRUE: histories are <<panic, solve>> and (MaxOps >= 3) <<solve, panic, solve>> only
 
 VARIABLES plan, cur, cb, tb, nev, results
 
@@ -39,6 +40,11 @@ PlansOf(p, n) == IF n = 0 THEN {<<>>}
                  ELSE LET shorter == PlansOf(p, n - 1) IN
                       shorter \cup {<<o>> \o s : o \in OpsFor(p), s \in {x \in shorter : Len(x) = n - 1}}
 
+SolveOps(p) == {[kind |-> "solve", goal |-> g, k |-> 0] : g \in RootGoals(p)}
+PanicOps(p) == {[kind |-> "panic", goal |-> g, k |-> k] : g \in RootGoals(p), k \in 1..MaxPanic}
+CrashPlans(p) == {<<c, s>> : c \in PanicOps(p), s \in SolveOps(p)}
+                 \cup (IF MaxOps >= 3 THEN {<<s0, c, s>> : s0 \in SolveOps(p), c \in PanicOps(p), s \in SolveOps(p)} ELSE {})
+
 TruthClass(g) == IF TruthOfGoal(g) THEN "Unique" ELSE "None"
 
 (* Named deviation SLG_RootSkipsDelayedAnswer (chalk-engine/src/logic.rs root_answer ->
@@ -57,7 +63,7 @@ Init ==
   /\ \E i \in 1..Len(Inputs) :
        /\ prog = [id |-> Inputs[i].id, clauses |-> Inputs[i].clauses, co |-> Range(Inputs[i].co),
                   goals |-> Inputs[i].goals]
-       /\ plan \in (PlansOf(prog, MaxOps) \ {<<>>})
+       /\ plan \in (IF PanicPlans THEN CrashPlans(prog) ELSE PlansOf(prog, MaxOps) \ {<<>>})
   /\ cur = NoCur /\ cb = 0 /\ tb = 0 /\ nev = 0 /\ results = <<>>
 
 Done == plan = <<>> /\ op.kind = "none" /\ pc = "idle"
@@ -73,31 +79,34 @@ StartOp ==
 
 Consulting == pc = "idle" /\ lastRes.res = "QuantumExceeded" /\ op.kind = "limited"
 
+\* a callback may panic wherever SLG.tla's Panic action is enabled
+CanPanic == pc \notin {"idle", "exit", "panicked"} \/ (pc = "idle" /\ op.phase \in {"stream"})
+\* crash point of a "panic" call: the callback panics instead of the engine's k-th event
+PanicNow == cur.kind = "panic" /\ nev + 1 = cur.k /\ CanPanic
+
 EngineStep ==
-  /\ op.kind # "none"
+  /\ op.kind # "none" /\ ~PanicNow
   /\ \E e \in Candidates(cur) :
        /\ Step(e)
        \* the continue-callback: false exactly at its k-th consultation
        /\ e.ev = "Stop" => Consulting /\ cb + 1 = cur.k
        /\ (e.ev = "RootBegin" /\ Consulting) => cb + 1 # cur.k
        /\ cb' = IF Consulting /\ e.ev \in {"Stop", "RootBegin"} THEN cb + 1 ELSE cb
-       \* panic injection: the k-th table construction of this call panics instead
-       /\ e.ev = "TableNew" => ~(cur.kind = "panic" /\ tb + 1 = cur.k)
        /\ tb' = IF e.ev = "TableNew" THEN tb + 1 ELSE tb
        /\ nev' = nev + 1
        /\ results' = IF e.ev = "OpEnd"
                      THEN Append(results, [goal |-> cur.goal, kind |-> cur.kind, k |-> cur.k,
                                            class |-> e.class, nev |-> nev + 1, cb |-> cb, tb |-> tb,
-                                           truth |-> TruthClass(cur.goal), stale |-> StaleDelayed])
+                                           truth |-> TruthClass(cur.goal), stale |-> StaleDelayed,
+                                           lost |-> Len(lost)])
                      ELSE results
   /\ UNCHANGED <<prog, plan, cur>>
 
 PanicStep ==
-  /\ cur.kind = "panic" /\ tb + 1 = cur.k
-  /\ \E e \in Candidates(cur) : e.ev = "TableNew"
+  /\ op.kind # "none" /\ PanicNow
   /\ Step([ev |-> "Panic"])
-  /\ tb' = tb + 1 /\ nev' = nev + 1
-  /\ UNCHANGED <<prog, plan, cur, cb, results>>
+  /\ nev' = nev + 1
+  /\ UNCHANGED <<prog, plan, cur, cb, tb, results>>
 
 Next == StartOp \/ EngineStep \/ PanicStep \/ (Done /\ UNCHANGED vars)
 
@@ -129,8 +138,17 @@ DeviationShape ==
      (results[i].kind = "solve" /\ results[i].stale /\ results[i].class # results[i].truth)
         => (results[i].truth = "Unique" /\ results[i].class = "None" /\ i > 1)
 
-\* the same, restricted to histories in which no strand was lost by a panic
-ResultsCorrectUnlessLost == Clean => ResultsCorrect
+\* C12 (as the engine is): a call made while no strand has been lost to a panic answers correctly,
+\* whatever panicked before; named deviation SLG_PanicWhileStrandHeld = the calls with lost > 0
+NoPanicClassUpTo(i) == \A j \in 1..i : results[j].class = "Panic" => results[j].kind = "panic"
+ResultsCorrectUnlessLost ==
+  \A i \in 1..Len(results) :
+     (results[i].kind = "solve" /\ ~results[i].stale /\ results[i].lost = 0 /\ NoPanicClassUpTo(i))
+        => results[i].class = TruthClass(results[i].goal)
+\* C12 as the property states it (violated through the named deviation)
+PanicSafe ==
+  \A i \in 1..Len(results) :
+     (results[i].kind = "solve" /\ ~results[i].stale /\ NoPanicClassUpTo(i)) => results[i].class = TruthClass(results[i].goal)
 
 \* C11: an interrupted solve returns the full answer or "Ambiguous; no guidance"
 InterruptSafe ==
